@@ -580,6 +580,12 @@ class TS:
                     if st[0] == "A" and st[1][0] == 0 and not st[1][1] and st[2][0] == "use" and st[2][1][0] == "k" \
                             and st[2][1][1].get("ty") == "bool" and "int" in st[2][1][1]:
                         env["rv"] = bool(int(st[2][1][1]["int"]))
+                    elif st[0] == "A" and st[1][0] == 0 and not st[1][1] and st[2][0] == "use" and st[2][1][0] in ("c", "m") and not st[2][1][1][1]:
+                        # `_0 = move _L` with the value of _L known on this path (the return value of a helper that was
+                        # inlined back, or of `let ok = match .. { .. }; ok`)
+                        v_ = (lf if lf is not None else env).get(("L", st[2][1][1][0]))
+                        if v_ is not None and v_[0] == "B":
+                            env["rv"] = v_[1]
             t = fn.blocks[b]["t"]
             k = t[0]
             if k == "goto":
@@ -1095,6 +1101,12 @@ class TS:
                 return v[1]
         if r[0] == "const" and r[1].get("ty") == "bool" and "int" in r[1]:
             return bool(int(r[1]["int"]))
+        if r[0] == "local" and not r[3]:
+            # a local with several definitions whose value on this path is known (the return value of a helper that was
+            # inlined back travels through one)
+            v = env.get(("L", r[1]))
+            if v is not None and v[0] == "B":
+                return v[1]
         return None
 
     def _sched_kind(self, fn, args):
